@@ -288,6 +288,8 @@ class Program:
         if b[0] == "import":
             return self._module_ref(b[1])
         if b[0] == "from":
+            if b[1] + "." + b[2] in self.modules:      # from . import submodule
+                return ("module", b[1] + "." + b[2])
             base = self._module_ref(b[1])
             return self._getattr(base, b[2], depth)
         if b[0] == "def":
